@@ -119,6 +119,7 @@ func runGlue(ctx *Ctx, c glueCase) {
 		c.orc.nfc(res.AsString()) // a fact about the real library: the result is a fixed point of NFC
 	}
 	ctx.Add("std.glue", out, c.name, wireArgs(c.args), c.orc.wire())
+	c14RefGlue(ctx, c, out)
 	ctx.Tag("fn:" + c.name)
 	ctx.Tag("class:" + c.name + ":" + class)
 	ctx.Eval(c.name+" "+wireArgs(c.args), true)
@@ -546,6 +547,7 @@ func c14Regex(ctx *Ctx, n int) {
 			ws := make([]string, len(all))
 			vals := make([]cty.Value, len(all))
 			for j, ix := range all {
+				c14ProbeIdx(ctx, len(names), len(str.AsString()), ix, pat.AsString(), str.AsString())
 				ws[j] = encInts(ix)
 				vals[j] = regexValue(o2, re, str.AsString(), ix, ty)
 			}
